@@ -13,4 +13,4 @@ def check(ctx):
                        "no InspectionWarning).  The real enter/exit event order is checked against the spec first "
                        "(ground truth); a disagreement there is a machinery error, not a violation")
     ctx.assume("managers have the conventional (self, *exc) signature; programs are CPython-compiled source within the size bound")
-    m7.explore(ctx, "suspended", 150, 3000, accept=lambda mm: not mm.get("meta"))
+    m7.explore(ctx, "suspended", 150, 3000, accept=lambda mm: not mm.get("meta"), quick_stride=2)
